@@ -46,6 +46,18 @@ fn c03(src: &'static str) -> (bool, String) {
     let (nsyn, r) = sema_outcome(src);
     (nsyn == 0 && matches!(r, Run::Panicked(_)), format!("`{}`: {} syntax diagnostics, analysis -> {:?}", src, nsyn, r))
 }
+/// the first statement of `src` (typed AST)
+fn first_stmt(src: &str) -> Option<oq3_syntax::ast::Stmt> { oq3_syntax::SourceFile::parse(src).tree().statements().next() }
+/// texts of the then- and else-body that the typed accessors of the first `if` of `src` return
+fn if_bodies(src: &str) -> (String, Option<String>) {
+    use oq3_syntax::ast::{AstNode, Stmt};
+    use oq3_syntax::BlockOrStmt;
+    let txt = |b: BlockOrStmt| match b { BlockOrStmt::BlockExpr(x) => x.syntax().text().to_string(), BlockOrStmt::Stmt(x) => x.syntax().text().to_string() };
+    match first_stmt(src) {
+        Some(Stmt::IfStmt(i)) => (txt(i.true_body_block_or_stmt()), i.false_body_block_or_stmt().map(txt)),
+        _ => ("<no if>".to_string(), None),
+    }
+}
 fn lex_errors(src: &str) -> usize { oq3_parser::LexedStr::new(src).errors().count() }
 
 
@@ -54,6 +66,17 @@ fn c(b: bool) -> IsConst {
 }
 
 type Check = fn() -> (bool, String);
+
+fn kf_if_then() -> (bool, String) {
+            let a = if_bodies("if (c) a; else {b;}");
+            let b = if_bodies("if (c) a; else b;");
+            let c_ = if_bodies("if (c) a;");
+            let swapped = a.0.trim() == "{b;}" && a.1.as_deref().map(str::trim) == Some("a;");
+            let dup = b.0.trim() == "a;" && b.1.as_deref().map(str::trim) == Some("a;");
+            let ghost_else = c_.1.as_deref().map(str::trim) == Some("a;");
+            (swapped && dup && ghost_else, format!("`if (c) a; else {{b;}}` -> then={:?} else={:?}; `if (c) a; else b;` -> then={:?} else={:?}; `if (c) a;` -> else={:?}", a.0, a.1, b.0, b.1, c_.1))
+        }
+
 
 fn table() -> Vec<(&'static str, Check)> {
     vec![
@@ -116,6 +139,8 @@ fn table() -> Vec<(&'static str, Check)> {
         ("C03-array-literal", || c03("array[int, 2] a = {1, 2};")),
         ("C03-block-expr", || c03("int x = {1};")),
         ("C03-box-expr", || c03("box { };")),
+        ("C05-if-single-statement-then", kf_if_then),
+        ("C06-if-single-statement-then", kf_if_then),
         ("C03-gphase-no-arg", || { let (a, wa) = c03("gphase();"); let (b, wb) = c03("inv @ gphase();"); (a && b, format!("{wa}; {wb}")) }),
         ("C03-empty-stmt-body", || {
             let (a, wa) = c03("if (true) ;"); let (b, wb) = c03("while (true) ;"); let (c_, wc) = c03("for int i in [0:1] ;");
@@ -172,6 +197,11 @@ fn fixed_table() -> Vec<(&'static str, Check)> {
         ("C01-delay-no-designator", || {
             let r = parse_outcome("delay q;");
             (matches!(r, Run::Panicked(_)), format!("SourceFile::parse(\"delay q;\") -> {:?}", r))
+        }),
+        ("C05-assignment-identifier-from-rhs", || {
+            use oq3_syntax::ast::{HasTextNode, Stmt};
+            let id = match first_stmt("x[0] = y;") { Some(Stmt::AssignmentStmt(a)) => a.identifier().map(|i| i.string()), _ => None };
+            (id.is_some(), format!("AssignmentStmt::identifier() of `x[0] = y;` -> {:?}", id))
         }),
         ("C03-barrier-no-operands", || c03("barrier;")),
         ("C03-stmt-body-none", || {
